@@ -22,7 +22,7 @@ struct Explorer {
 		std::vector<int> activityAfter;
 		std::string keyBefore, keyAfter;
 		bool activatedBefore = false, activatedAfter = false;
-		long breaks = 0, sanReports = 0;
+		long breaks = 0, sanReports = 0, allocs = 0;
 		std::string breakSite;
 		bool bad = false;  // a monitor flagged this execution: do not expand its successor state
 		History full() const { History h = *hist; h.push_back(step); return h; }
@@ -91,6 +91,7 @@ struct Explorer {
 		++replayChecks;
 		const long b0 = breaks().count;
 		const long san0 = sanErrors();
+		const long alloc0 = allocState().count;
 		cur = &x;
 		r.env.monitoring = true;
 		x.stepBegin = r.env.trace.size();
@@ -103,6 +104,7 @@ struct Explorer {
 		x.breaks = breaks().count - b0;
 		if (x.breaks) x.breakSite = std::string(breaks().file) + ":" + str(breaks().line);
 		x.sanReports = sanErrors() - san0;
+		x.allocs = allocState().count - alloc0;
 		if (r.env.engineErrors) engineError("step: " + r.env.engineErrorText, x.full());
 		x.after = r.snap();
 		x.keyAfter = r.key();
@@ -271,6 +273,7 @@ struct Explorer {
 	void checkC09(Runner& r, Exec& x);
 	void checkC06(const Node& node, Exec& x);
 	void checkC16(const Node& node, Exec& x);
+	void checkC11(const Node& node, Exec& x);
 	bool noLogger = false, noMonitors = false;
 	void planScenarios(const Node& n);
 	template <typename TTransition> bool payloadOk(const TTransition& t, const Env& e, const std::string& where);
@@ -290,6 +293,10 @@ struct Explorer {
 		if (props & P_C03) checkC03(x);
 		afterExec(node, x);
 		if (x.breaks && (props & P_C11)) violation("C11", "assert/" + x.breakSite.substr(x.breakSite.find_last_of('/') + 1), "library assertion " + x.breakSite + " during " + x.step.op.text(), x);
+		if (x.allocs && (props & P_C11)) violation("C11", "alloc/dynamic-allocation", str(x.allocs) + " dynamic allocation(s) while the library executed " + x.step.op.text(), x);
+#ifdef VT_COUNT_ALLOCS
+		if (props & P_C11) ++counters["c11_api_calls_with_allocation_counting"];
+#endif
 		if (x.sanReports && (props & P_C11)) violation("C11", "sanitizer/report", str(x.sanReports) + " AddressSanitizer/UBSan report(s) during " + x.step.op.text() + " (report text on stderr)", x);
 	}
 
@@ -520,6 +527,27 @@ int main(int argc, char** argv) {
 	}
 	Explorer<FSM> ex(opt);
 	ex.props = Explorer<FSM>::propsFromString(opt.prop);
+#ifdef VT_COUNT_ALLOCS
+	{	// self-test of the allocation interposers: an allocation inside the counting window must be seen, one outside must not
+		void* volatile sink = nullptr;
+		void* (*volatile pm)(size_t) = &malloc;
+		const long c0 = allocState().count;
+		sink = pm(8); free(sink);
+		const long c1 = allocState().count;
+		++allocState().active;
+		sink = pm(8); free(sink);
+		const long c2 = allocState().count;
+		{ int* volatile n = new int(1); delete n; }
+		const long c3 = allocState().count;
+		{ NoCount nc; sink = pm(8); free(sink); }
+		const long c4 = allocState().count;
+		--allocState().active;
+		if (c1 != c0 || c2 <= c1 || c3 <= c2 || c4 != c3) { printf("{\"type\":\"engine_error\",\"message\":\"allocation interposer self-test failed (%ld %ld %ld %ld %ld)\",\"enc\":\"\"}\n", c0, c1, c2, c3, c4); return 0; }
+		ex.counters["c11_alloc_selftest_ok"] = 1;
+		allocState().count = 0;
+		allocState().traceBudget = 2;  // the first offending allocations are shown with a backtrace on stderr
+	}
+#endif
 	E::buildMenus();
 	if (!opt.replay.empty()) return ex.replay(opt.replay);
 	if (!ex.selfCheck()) { ex.summary(); return 0; }
